@@ -73,10 +73,13 @@ theorem handlerCrypto_succ (env : Env) (cur : List POp) (off : Nat) (s : St) (v 
   split
   all_goals first
     | succ_triv
-    | (simp only []
-       first
-        | exact wrap_succ _ _ (opCheckSig_succ _ _ _) (fun s1 => by split <;> simp)
-        | exact wrap_succ _ _ (opCheckMultiSig_succ _ _ _) (fun s1 => by split <;> simp))
+    | (cases hs : subScript cur s with
+       | none => rfl
+       | some sub =>
+         simp only []
+         first
+          | exact wrap_succ _ _ (opCheckSig_succ _ _ _) (fun s1 => by split <;> simp)
+          | exact wrap_succ _ _ (opCheckMultiSig_succ _ _ _) (fun s1 => by split <;> simp))
 
 theorem errOr_succ (r : Option String) (k : Res) (hk : k.succB = true) : (errOr r k).succB = true := by
   cases r
